@@ -163,6 +163,15 @@ PROPS = {
         explanation='Event-system theorems (same weights => same evolution; order-preserving renumbering of asset ids commutes with insertion/pause/unpause/cancel; run() markers only stop the loop) + lock-step with the '
                     'pure model at varying id offsets; the split and multi-process clauses are decided on the implementation by the reproducibility monitor. PARTIAL.',
         assumptions=['worker processes: fork start method of this platform', 'the split comparison ignores event creation numbers (the extra marker event shifts them)']),
+    'C04': dict(
+        vfile='Props/C04.v', ties=['Tie/TieEnv.v', 'Tie/TieFloor.v'],
+        families=[('line', 500, 15000, 'small', 'large')],
+        rule='F_line scenarios: serial lines source -> 1..8 stations (handlers, processors, buffers with capacity 1..5/unbounded and delays incl. 0) -> sink, cycle times incl. 0 on a 1/8 grid and a 1-tick grid, '
+             'source budgets, horizons 40..800, single steps and split runs, three weight sources; generated from VERIF_SEED; '
+             'non-trivial = at least 6 parts received with a buffer in the line, or at least 10 parts received; distinct by scenario text',
+        explanation='The recurrence is an executable Coq function with proved characterisation (least table under service/order/blocking constraints, monotone); every run checks the three-way agreement '
+                    'implementation = floor model (lock-step) and implementation entry times = recurrence evaluated by the extracted Coq function = independent Python reading of the property text. PARTIAL: model-follows-recurrence is not a theorem.',
+        assumptions=['constant parameters, no failures (the class of lines the property names)', 'only the first 60 parts of a line are compared with the Coq-evaluated table']),
 }
 
 LEVELS = {
@@ -266,9 +275,15 @@ LEVELS = {
              'multi-process clause are decided by the reproducibility monitor on the implementation (again / seeded / split / multi-process variants) together with the lock-step against the pure model.',
         design_ref='DESIGN.md section 8, C14', technique='Coq proof (extensionality in the weight source, renaming equivariance of the queue operations, marker lemmas) + lock-step correspondence at varying id offsets + differential reruns of the implementation',
         note='Partial: run-split equality and process-level behaviour are not theorems (a Coq model cannot exhibit worker processes).'),
+    'C04': dict(
+        text='PARTIAL. Machine-checked: the reference recurrence (Model/Line.v) is the tight solution of the service / order / blocking constraints and is monotone in the part number and along the line. '
+             'Not a theorem: that the floor model follows the recurrence (whole-run timing). Decided on every run by three-way agreement on generated serial lines: implementation = floor model in lock-step, '
+             'and recorded entry times = the recurrence evaluated by the extracted Coq function = the monitor\'s independent computation.',
+        design_ref='DESIGN.md section 8, C04', technique='Coq proof (characterisation of the recurrence) + lock-step correspondence + differential check of recorded entry times against the Coq-evaluated recurrence',
+        note='Partial: the equality simulator = recurrence is validated (differential), not proved.'),
 }
 
 NOT_APPLICABLE = [
     dict(property_id=p, reason='check under construction in this round (model layer not yet built); see DESIGN.md section 12 build order')
-    for p in ['C04']
+    for p in []
 ]
